@@ -6,7 +6,11 @@
          of those sources alone orders them; the run ends (no deadlock, bounded executions);
      (2) the modelled reader cores never reach an explicit Panic outcome (Rust unsigned underflow,
          assert_le!, unwrap on None, slice index) and never run out of fuel (= their loops
-         terminate): line reader, datetime search (binary and linear), record walk, classifier.
+         terminate): line reader, datetime search (binary and linear), record walk, classifier;
+         and, since the extension round, the readers WITH their caches over arbitrary call
+         histories, the regex matcher on arbitrary patterns and texts, record rendering, the
+         journal export parser, the event-log drain, the year walk, and block assembly from a
+         decoder that delivers less than declared (an error, never a wrong block).
    What is only VALIDATED (checks/c07.py, fault enumeration on the real binary): third-party
    decoders/parsers on hostile bytes, the unsafe struct casts, exit status and promptness. *)
 From Coq Require Import List ZArith NArith Bool Arith.
@@ -23,6 +27,22 @@ From S4.Base Require Bytes.
 From S4.Model Require Classify.
 From S4.Gen Require ClassifyTables.
 From S4.Props Require C16.
+From S4.Spec Require LinesSpec.
+From S4.Model Require Caches.
+From S4.Model Require Regex RegexPlan RegexDt.
+From S4.Props Require C04.
+From S4.Base Require Bytes.
+From S4.Model Require Records RecordRender LayoutDetect.
+From S4.Gen Require FixedStructTables.
+From S4.Props Require C08.
+From S4.Spec Require AssembleSpec.
+From S4.Model Require Assemble.
+From S4.Props Require C05.
+From S4.Model Require Journal.
+From S4.Props Require C09.
+From S4.Model Require Calendar Year.
+From S4.Props Require C11.
+From S4.Proofs Require CachesRunProofs RecordRenderProofs AssembleProofs AssembleTheorems JournalExport YearProofs.
 
 Module Isolation.
   Import Merge Coord.
@@ -96,3 +116,97 @@ Module Classifier.
   Proof. exact C16_classify_total. Qed.
   Print Assumptions C07_classify_total.
 End Classifier.
+
+(* ---- extension round: the newly modelled cores -------------------------------------------------- *)
+
+Module CachedReaders.
+  Import Bytes Chunk.
+  Import LinesSpec.
+  Import Lines Syslines.
+  Import Caches.
+  Import CachesRunProofs.
+  Import C02.
+  Open Scope N_scope.
+
+  (* any history of find_line / find_sysline / in-block finds (any offsets, any order, LRU caches
+     switched on and off) on any bytes: no call of the cached readers panics *)
+  Theorem C07_cached_readers_no_panic : forall dated bs (f : file) ops, 0 < bs -> Forall op_nodrop ops ->
+    forallb (fun x => negb (cres_panicked x)) (snd (c_run dated bs f cinit ops)) = true.
+  Proof. exact cached_nodrop_no_panic. Qed.
+  Print Assumptions C07_cached_readers_no_panic.
+End CachedReaders.
+
+Module RegexMatcher.
+  Import Regex RegexPlan RegexDt.
+
+  Import C04.
+
+  (* the matcher gives a verdict (match or no match) for every pattern and every text: the fuel
+     |text|+1 suffices, no Unknown, no OutOfFuel — hostile text cannot make the model loop *)
+  Theorem C07_regex_total : forall r text,
+    search r text = NoMatch \/ exists mt, search r text = Match mt.
+  Proof. exact C04_regex_total. Qed.
+  Print Assumptions C07_regex_total.
+End RegexMatcher.
+
+Module Records.
+  Import Bytes.
+  Import Records RecordRender LayoutDetect.
+  Import FixedStructTables.
+  Import RecordRenderProofs.
+  Import C08.
+  Open Scope N_scope.
+
+  (* rendering a record of any table layout never fails and never truncates, whatever the bytes *)
+  Theorem C07_as_bytes_never_fails : forall f32txt n items e,
+    In (n, items) fixedstruct_render -> (forall b, (length (f32txt b) <= 64)%nat) -> bytes_ok e ->
+    as_bytes f32txt print_buffer_cap items as_bytes_tail e = ROk (render f32txt items as_bytes_tail e).
+  Proof. exact C08_as_bytes_is_render. Qed.
+  Print Assumptions C07_as_bytes_never_fails.
+End Records.
+
+Module Assembly.
+  Import Bytes.
+  Import AssembleSpec.
+  Import Assemble.
+  Import AssembleProofs AssembleTheorems.
+
+  Import C05.
+  Open Scope N_scope.
+
+  (* a truncated or over-long compressed stream: whatever the decoder delivers (within its read
+     contract), a block that IS returned is the right block — a short stream is an error, never
+     silently different bytes *)
+  Theorem C07_assemble_never_wrong :
+    forall dstate read remaining, contract dstate read remaining ->
+      forall buf, buf_ok buf ->
+      forall bs n d0 plain, 0 < bs -> remaining d0 = plain ->
+        forall i b, assemble dstate (fill_block dstate read buf) bs n d0 i = AOk b ->
+                    b = blk bs (firstn (N.to_nat n) plain) i.
+  Proof. exact assemble_never_wrong. Qed.
+  Print Assumptions C07_assemble_never_wrong.
+End Assembly.
+
+Module JournalExport.
+  Import Journal.
+  Import JournalExport.
+
+  Import C09.
+
+  Theorem C07_parse_export_terminates : forall s, parse_export s <> POutOfFuel.
+  Proof. exact parse_export_fuel_ok. Qed.
+  Print Assumptions C07_parse_export_terminates.
+End JournalExport.
+
+Module YearWalk.
+  Import Calendar Year.
+  Import YearProofs.
+
+  Import C11.
+
+  (* the retry loop of the year walk needs at most two attempts per message: it terminates *)
+  Theorem C07_year_walk_terminates : forall k off Y msgs,
+    Forall wf_msg msgs -> assign_years (2 + k) off Y msgs = assign_years 2 off Y msgs.
+  Proof. exact C11_assign_fuel. Qed.
+  Print Assumptions C07_year_walk_terminates.
+End YearWalk.
